@@ -108,7 +108,7 @@ CHECKS.update({
              "(getm_returns_registered), rename moves record and object and nothing else (rename_keeps_record); the binding "
              "prediction is compared per operation with a dictionary model and with the data the real objects return, for all ten "
              "file formats; requests with lists of files / patterns are modelled as sequences of the model's operations.",
-        note=TB + "Series data and file reading are abstracted (C01). Name resolution is C09's model.",
+        note=TB + "The bytes of a record and the file readers are abstract in the model (an object's content is its origin: file + record number / data set name / added id); that a reader returns the bytes of the record it is asked for is C01's part. Name resolution is C09's model. List forms of load/clear are composed in the driver from single-file / single-key steps.",
         ref="4/C08"),
     "C09": dict(
         technique="Lean 4 proof (string-level model of str.replace / fnmatch / os.path; escaping theorem for all strings) + correspondence with TsDB.list/get/in/common",
